@@ -76,6 +76,7 @@ static Plan minimise(const Workload& w, const Plan& orig, const Violation& targe
 
 int main(int argc, char** argv) {
     std::vector<std::pair<std::string, double>> overrides;
+    std::string want_prop;
     std::string workload, tier = "quick", focus, planfile; uint64_t s0 = 1, s1 = 1; bool do_min = true, print_plan = false; double dual_frac = 0.0; int min_budget = 150;
     for (int i = 1; i < argc; i++) {
         std::string a = argv[i];
@@ -89,6 +90,7 @@ int main(int argc, char** argv) {
         else if (a == "--print-plan") print_plan = true;
         else if (a == "--dual") dual_frac = atof(next().c_str());
         else if (a == "--min-budget") min_budget = atoi(next().c_str());
+        else if (a == "--prop") want_prop = next();     // minimise / judge reproduction for the first violation of this property (a run may violate several)
         else if (a == "--set") { std::string kv = next(); size_t e = kv.find('='); if (e != std::string::npos) overrides.push_back({kv.substr(0, e), atof(kv.c_str() + e + 1)}); }   // overrides a parameter of every generated plan
         else if (a == "--list") { for (auto& kv : registry()) printf("%s\n", kv.first.c_str()); return 0; }
     }
@@ -119,6 +121,8 @@ int main(int argc, char** argv) {
         if (r.viol.empty() && dual_frac > 0 && ((seed * 2654435761ull) % 1000) < (uint64_t)(dual_frac * 1000)) { RunResult r2 = w.run(pl); dual_ok = (r2.fingerprint == r.fingerprint) && r2.viol.empty(); }
         if (r.viol.empty()) { printf("@@RESULT %s\n", jresult(pl, r, nullptr, 0, true, dual_ok).c_str()); continue; }
         any_viol = 1;
+        size_t ti = 0; if (!want_prop.empty()) for (size_t q = 0; q < r.viol.size(); q++) if (r.viol[q].prop == want_prop) { ti = q; break; }
+        if (ti != 0) std::swap(r.viol[0], r.viol[ti]);      // the target class comes first in the result
         int reruns = 1; RunResult r2 = w.run(pl);
         bool reproduced = same_class(r2, r.viol[0]) && r2.fingerprint == r.fingerprint;
         Plan minp = pl;
